@@ -456,7 +456,7 @@ func listenerWide(rep *kit.Report) {
 
 func main() {
 	rep := kit.NewReport("C17", "exploration",
-		"body limits: every non-empty subset (and its reversal) of 4 nested path scopes x 9 request paths x body lengths {0, L-1, L, L+1, 2L for every L} x {Content-Length, chunked by 1, by 3, by n+1} x 6 read-buffer sizes, directly and through proxy to an in-process backend; 8 limits at and beyond what an int64 holds (refused, or small bodies arrive whole); listener-wide: every assignment of {unset, none, 5s, 10s} to 1..3 co-hosted sites per timeout kind, pairs of kinds (2 sites; 3 in thorough), all four kinds over {unset,5s,10s} on 2 sites, header sizes over {unset,4KB,8KB}^n; distinct_nontrivial = outcome classes")
+		"body limits: every non-empty subset (and its reversal) of 4 nested path scopes x 9 request paths x body lengths {0, L-1, L, L+1, 2L for every L} x {Content-Length, chunked by 1, by 3, by n+1} x 6 read-buffer sizes, directly and through proxy to an in-process backend; a site whose address carries a path next to one that does not; 8 limits at and beyond what an int64 holds (refused, or small bodies arrive whole); listener-wide: every assignment of {unset, none, 5s, 10s} to 1..3 co-hosted sites per timeout kind, pairs of kinds (2 sites; 3 in thorough), all four kinds over {unset,5s,10s} on 2 sites, header sizes over {unset,4KB,8KB}^n; distinct_nontrivial = outcome classes")
 	kit.Init()
 	kit.RegisterProbe()
 	kit.Log.Off.Store(true)
@@ -485,6 +485,48 @@ func main() {
 		}
 		l.Close()
 		rep.Class("two-limits-directives/both-applied")
+	}
+	// a site whose address carries a path: its directives see the request path with that prefix trimmed, the limit scopes included
+	{
+		cf := "a.test:8080/app {\n\tlimits {\n\t\tbody / 64\n\t\tbody /upload 8\n\t}\n\tverif_probe\n}\na.test:8080 {\n\tlimits {\n\t\tbody / 4\n\t}\n\tverif_probe\n}\n"
+		l, err := kit.Load(cf, "/nonexistent/Casketfile")
+		if err != nil {
+			rep.Broken("path-prefixed site: %v", err)
+		}
+		for _, tc := range []struct {
+			path string
+			lim  int
+		}{{"/app/upload/x", 8}, {"/app/upload", 8}, {"/app/other", 64}, {"/app/uploads", 8}, {"/upload/x", 4}, {"/APP/upload/x", 4}} {
+			for _, n := range []int{tc.lim - 1, tc.lim, tc.lim + 1, 2*tc.lim + 3} {
+				for _, chunked := range []bool{false, true} {
+					b := body(n)
+					raw := fmt.Sprintf("POST %s HTTP/1.1\r\nHost: a.test:8080\r\nX-Probe: readbody:3\r\nContent-Length: %d\r\n\r\n%s", tc.path, len(b), b)
+					if chunked {
+						raw = fmt.Sprintf("POST %s HTTP/1.1\r\nHost: a.test:8080\r\nX-Probe: readbody:3\r\nTransfer-Encoding: chunked\r\n\r\n%x\r\n%s\r\n0\r\n\r\n", tc.path, len(b), b)
+					}
+					req, _ := kit.Req(raw)
+					rec, pv, _ := kit.ServeReq(l.Server(""), req)
+					rep.Eval(1)
+					want := fmt.Sprintf("READ n=%d err=<nil>", n)
+					if n > tc.lim {
+						want = fmt.Sprintf("READ n=%d err=http: request body too large", tc.lim)
+					}
+					if pv != nil || !strings.Contains(rec.Body.String(), want) {
+						got := rec.Body.String()
+						if len(got) > 100 {
+							got = got[:100]
+						}
+						kind := "over-limit-not-cut-at-limit"
+						if n <= tc.lim {
+							kind = "within-limit-not-passed-whole"
+						}
+						rep.Violation("C17/body/"+kind+"/site-with-path-prefix", fmt.Sprintf("sites a.test/app (limits / 64, /upload 8) and a.test (limit 4): a %d-byte body for %s: the limit is %d", n, tc.path, tc.lim), limCase{cf, raw, want + " ...", got})
+					}
+				}
+			}
+		}
+		l.Close()
+		rep.Class("site-with-path-prefix")
 	}
 	// limits far above any body: the largest values an int64 holds, and values whose unit multiplication does not fit one. The
 	// site is refused, or a 2000-byte body arrives whole (every one of these limits is above 2000 bytes).
